@@ -140,6 +140,24 @@ def judge(case):
         resid = np.abs(flow.sum(axis=0))
         if (resid > 1e-9 * np.abs(flow).sum(axis=0) + 1e-300).any():
             msgs.append(f"V exp(-E/RT) is not stationary: max |pi Q|_j relative {float((resid / (np.abs(flow).sum(axis=0) + 1e-300)).max()):.3g}")
+        # a second rate matrix from the very same loaded objects (other temperature and energies), as a parameter scan would
+        # build it: the loaded geometry must not have been consumed by the first call
+        S_before, H_before, V_before = dense(S).copy(), dense(H).copy(), V.copy()
+        try:
+            E2 = E[::-1].copy() * 0.5 + 1.0
+            T2 = T + 50.0
+            with quiet():
+                Q2 = np.asarray(SQRA(energies=E2, volumes=V, distances=H, surfaces=S).get_rate_matrix(D=Dc * 2, T=T2).toarray(), dtype=float)
+            if not (np.array_equal(dense(S), S_before) and np.array_equal(dense(H), H_before) and np.array_equal(V, V_before)):
+                msgs.append("the loaded geometry (borders / distances / volumes) was modified while building a rate matrix")
+            ok2 = (Q2[ii, jj] > 0) & (Q2[jj, ii] > 0)
+            lhs2 = np.log(Q2[ii, jj][ok2]) - np.log(Q2[jj, ii][ok2])
+            rhs2 = np.log(V[jj][ok2]) - np.log(V[ii][ok2]) + (E2[ii][ok2] - E2[jj][ok2]) / (R_KJ * T2)
+            if len(lhs2) and np.abs(lhs2 - rhs2).max() > 1e-8 + 1e-10 * np.abs(rhs2).max():
+                msgs.append(f"second rate matrix built from the same loaded geometry violates detailed balance "
+                            f"(max log deviation {np.abs(lhs2 - rhs2).max():.3g})")
+        except Exception as e:
+            msgs.append(f"second rate matrix from the same loaded geometry raised {type(e).__name__}: {e}")
         ncomp, _ = connected_components(A.tocsr(), directed=False)
         if ncomp != 1:
             info["skipped"] = "disconnected"
